@@ -83,6 +83,7 @@ def W(t, *a, deps=()): d = _mk("W", a, deps); d["target"] = t; return d
 def D(*deps): return {"kind": "D", "deps": list(deps)}
 def L(*deps): return {"kind": "L", "deps": list(deps)}
 def A(of, *deps): return {"kind": "A", "of": of, "deps": [of] + list(deps)}
+def K(*deps): return {"kind": "K", "deps": list(deps)} if deps else {"kind": "K"}
 
 
 def _mk(k, a, deps):
@@ -115,6 +116,9 @@ CURATED = {
     "literal-dep-with-dependency": [S(), C(0), L(1), C(deps=[2])],
     "literal-hub": [S(), C(0), U(0), L(1, 2), C(3), U(deps=[3])],
     "literal-from-source": [S(), L(0), U(1), C(2)],
+    "stored-literal": [K(), C(0)],
+    "stored-literal-with-dependency": [S(), C(0), K(1), C(2), U(deps=[2])],
+    "stored-literal-after-source": [S(), K(0), U(1), C(2)],
     "alias-source": [S(), C(0), A(1)],
     "alias-source-consumed": [S(), C(0), A(1), C(2)],
     "alias-source-reader-call": [S(), C(0), A(1), U(deps=[2]), C(3)],
@@ -150,6 +154,10 @@ def thorough_specs():
     out += [(name, s) for name, s in CURATED.items() if name in SLOW]
     seen = {repr(s) for _, s in out}
     for s in family(3, edge_menu=(None, "a", "d"), attach_menu=(None, "a")):
+        # the pure source feeds the first slot only, or every slot
+        src_succ = [j for j, nd in enumerate(s) if 0 in nd.get("args", ()) and s[0]["kind"] == "S"]
+        if s[0]["kind"] == "S" and len(src_succ) == 2:
+            continue
         if repr(s) not in seen:
             seen.add(repr(s))
             out.append(("fam3", s))
